@@ -531,6 +531,39 @@ def py_sequences(maxl):
     return out
 
 
+def py_random_sequences(n, length, rng):
+    """Longer statement sequences over three variables, drawn at random among the statements Python allows in the
+    state reached (the guards of specs/PyOwn.tla), closed by deleting what is still bound."""
+    V = ["a", "b", "c"]
+    out = []
+    for _ in range(n):
+        bound, seq, nobj = set(), [], 0
+        while len(seq) < length:
+            # (statements that run into a recorded finding -- owned results -- end a replay at that point: they are
+            # left to the enumerated short sequences; the long ones exercise constructors, borrowed results, aliases)
+            cand = []
+            for v in V:
+                if v not in bound:
+                    cand += [("ctor", v, ""), ("ctor", v, ""), ("borrow", v, "")]
+                else:
+                    cand += [("method", v, ""), ("del", v, ""), ("del", v, "")]
+                    cand += [("alias", v, w) for w in V if w not in bound]
+            op = rng.choice(cand)
+            makes = op[0] in ("ctor", "make", "pooled", "clone", "dupname", "newints")
+            if makes and nobj >= 10:
+                continue
+            nobj += 1 if makes else 0
+            seq.append(op)
+            if op[0] in ("ctor", "make", "pooled", "borrow"):
+                bound.add(op[1])
+            elif op[0] in ("clone", "alias"):
+                bound.add(op[2])
+            elif op[0] == "del":
+                bound.discard(op[1])
+        out.append(seq + [("del", v, "") for v in sorted(bound)])
+    return out
+
+
 def python_part(c, d, thorough):
     from rt import pygen
     cfg = "MC_PyOwn_thorough" if thorough else "MC_PyOwn_quick"
@@ -563,6 +596,8 @@ def python_part(c, d, thorough):
         c.violation("py-build:link", txt[-800:])
         return 0
     seqs = py_sequences(4 if thorough else 3)
+    import random
+    seqs += py_random_sequences(400 if thorough else 40, 12, random.Random(common.seed()))
     # one object of every class, constructed and dropped in turn: each is released by its own destructor
     kseq = []
     for k in range(1, NKINDS):
